@@ -59,6 +59,18 @@ def next_run(c):
     return {"text": txt, "facts_now": local_facts(c["now"])}
 
 
+def next_run_reuse(c):
+    """the caller keeps one set object (a schedule's days) and asks twice, at two instants"""
+    days = {DAYS[i] for i in c["days"]}
+    with time_machine.travel(float(c["first_now"]), tick=False):
+        try: tools.pretty_next_run(c["first_start"], days)
+        except Exception: pass
+    with time_machine.travel(float(c["now"]), tick=False):
+        try: txt = tools.pretty_next_run(c["start"], days)
+        except Exception: txt = "raised"
+    return {"text": txt, "facts_now": local_facts(c["now"])}
+
+
 def create_readback(c):
     """create_schedule against a scripted device, capture the record, list it back as a device would"""
     import world
@@ -77,7 +89,7 @@ def create_readback(c):
             "facts_now": local_facts(c["now"])}
 
 
-JOBS = {"duration": duration, "schedules": schedules, "clock": clock, "decode": decode, "next_run": next_run, "create_readback": create_readback,
+JOBS = {"duration": duration, "schedules": schedules, "clock": clock, "decode": decode, "next_run": next_run, "next_run_reuse": next_run_reuse, "create_readback": create_readback,
         "facts": lambda c: local_facts(c["t"]),
         "schedules_nodisplay": lambda c: schedules(c, False)}
 job = json.load(sys.stdin)
